@@ -68,21 +68,27 @@ Theorem C10_no_stuck_in_flight : forall cfg s r tx d, ph s = PInFlight r tx d ->
 Proof. exact inflight_not_stuck. Qed.
 Print Assumptions C10_no_stuck_in_flight.
 
+(* a write in progress ends however long the transport takes nothing (a peer that does not read): when the clock reaches
+   the timer instant of the transmission bound (write start + request timeout, `wdl`) the timer step finds the write
+   done - the request is then in flight - or completes the request; no release of the transport is needed *)
 Theorem C10_no_stuck_writing : forall cfg s r tx u, ph s = PWriting r tx u ->
-  let s1 := fst (step cfg s (EvTick (fire cfg u - now s))) in
-  exists d, ph (fst (step cfg s1 EvTimer)) = PInFlight r tx d.
+  let s1 := fst (step cfg s (EvTick (fire cfg (wdl s) - now s))) in
+  (exists d, ph (fst (step cfg s1 EvTimer)) = PInFlight r tx d) \/ In (rq_id r) (completed (snd (step cfg s1 EvTimer))).
 Proof. exact writing_not_stuck. Qed.
 Print Assumptions C10_no_stuck_writing.
 
-Theorem C10_no_stuck_queued : forall cfg s r q, listens (ph s) = true -> queue s = CReq r :: q ->
-  let '(s', o) := step cfg s EvRecv in In (rq_id r) (completed o) \/ inflight (ph s') = [rq_id r].
-Proof. exact queued_not_stuck. Qed.
-Print Assumptions C10_no_stuck_queued.
+(* a slow write on a transport that is not parked is done at its own instant *)
+Theorem C10_slow_write_done : forall cfg s r tx u, ph s = PWriting r tx u -> wpark s = 0%nat ->
+  let s1 := fst (step cfg s (EvTick (fire cfg u - now s))) in
+  exists d, ph (fst (step cfg s1 EvTimer)) = PInFlight r tx d.
+Proof. exact slow_write_done. Qed.
+Print Assumptions C10_slow_write_done.
 
 (* the error tells what happened (see `explains` in Proofs/C10Proofs.v, repeated here in words):
    NoConnection    <-> the request was taken from the queue by a not-connected phase
    ResponseTimeout <-> the deadline branch of the outstanding request, at or after its timer instant
-   Io / BadFrame   <-> the read error / EOF / failed write / rejected header that ended that connection
+   Io / BadFrame   <-> the read error / EOF / failed write / write not done at its bound (write start + request
+                       timeout) / rejected header that ended that connection
                        (the same step reports the session end with that reason)
    Ok / Exception / BadResponse <-> the frame carrying the outstanding transaction id
    BadRequest      <-> rejected by the encoder when taken from the queue while connected
